@@ -61,6 +61,14 @@ class Ctx:
         self.renamed_helpers.update(canonicalise_private_attributes(self.prog))
         register_program_exceptions(self.prog)
         self.res = Resolver(self.prog)
+        from . import flow as _flow
+
+        _res = self.res
+
+        def _pred(func, call):
+            return [c for c in _res.callees(func, call, record=False) if c.cls is None or (func.cls is not None and c.cls.qualname == func.cls.qualname)]
+
+        _flow.PREDICATE_RESOLVER = _pred
         self.findings: list[Finding] = []
         self.obligations: list[Obligation] = []
         self.samples: list[dict] = []
